@@ -428,6 +428,12 @@ struct StringStream {
         constexpr SizeT size = sizeof(Char_T);
         Char_T         *str  = Storage();
 
+#ifdef QENTEM_VERIF_HOOKS
+        // Verification hook: exact-fit growth (see allocate()).
+        if (new_capacity != 0) {
+            allocate(new_capacity);
+        } else
+#endif
         allocate(new_capacity * SizeT{4});
 
         Memory::Copy(Storage(), str, (Length() * size));
@@ -435,6 +441,10 @@ struct StringStream {
     }
 
     void allocate(SizeT size) {
+#ifdef QENTEM_VERIF_HOOKS
+        // Verification hook: no power-of-two rounding, so Storage() + Capacity() borders the red zone.
+        if (size == 0)
+#endif
         size = Memory::AlignSize(size);
 
         setStorage(Memory::Allocate<Char_T>(size));
